@@ -11,14 +11,14 @@ from vf import taps
 
 def _homog(h, pts):
     h = np.asarray(h, dtype=float)
-    d = h.shape[0] - 1
-    if pts.shape[1] != d:
+    din, dout = h.shape[1] - 1, h.shape[0] - 1          # (n_dims_output + 1) x (n_dims + 1): not necessarily square
+    if pts.shape[1] != din:
         return None
     hp = np.hstack([np.asarray(pts, dtype=float), np.ones((len(pts), 1))]) @ h.T
-    w = hp[:, d]
+    w = hp[:, dout]
     ok = np.abs(w) > 1e-9
-    out = np.zeros((len(pts), d))
-    out[ok] = hp[ok, :d] / w[ok, None]
+    out = np.zeros((len(pts), dout))
+    out[ok] = hp[ok, :dout] / w[ok, None]
     return out, ok
 
 
